@@ -394,7 +394,36 @@ class Inliner(object):
           self.helpers[fn.name] = saved
       if not changed or (len(self.notes), self.counter) == before:
         break
+    self.drop_dissolved()
     return self.notes
+
+  def drop_dissolved(self):
+    """a helper all of whose call sites were read in place no longer exists as
+    a function of its own for the rules (sweeps over all functions of a module
+    would otherwise judge its statements twice, out of their context)."""
+    for name in list(self.notes):
+      fn, cls = self.helpers[name]
+      left = 0
+      for other in roles.functions(self.tree).values():
+        if other is fn:
+          continue
+        for c in _own_nodes(other):
+          if isinstance(c, ast.Call) and self.target(c)[0] is fn:
+            left += 1
+          elif isinstance(c, ast.Name) and c.id == name and isinstance(c.ctx, ast.Load) and cls is None \
+              and not any(isinstance(p, ast.Call) and p.func is c for p in _own_nodes(other)):
+            left += 1        # passed around as a value
+          elif isinstance(c, ast.Attribute) and c.attr == name and cls is not None and \
+              not any(isinstance(p, ast.Call) and p.func is c for p in _own_nodes(other)):
+            left += 1
+      if left:
+        continue
+      for holder in ast.walk(self.tree):
+        body = getattr(holder, 'body', None)
+        if isinstance(body, list) and fn in body:
+          body.remove(fn)
+          if not body:
+            body.append(ast.Pass())
 
 
 def _pure(v):
